@@ -316,6 +316,7 @@ def pred_c11(tr, story):
             # the cid of this call: a new handler c<cid> shows up in the projection, or the task finished at once
             new = {w for ws in p["table"].values() for w in ws if w.startswith("c")} - {w for ws in pj["table"].values() for w in ws if w.startswith("c")}
             done_now = [o for o in obs if o.startswith("TC")]
+            new = {w for w in new if w[1:].isdigit()}
             if new:
                 cid = int(sorted(new)[0][1:])
                 calls[cid] = dict(start=i, t0=now, types=[int(x) for x in types.split(",") if x != "-"], ap=_pred_fn(ap), st=_pred_fn(st),
@@ -392,6 +393,11 @@ def pred_c11(tr, story):
             continue
         p = parse_proj(tr.steps[at - 1][1])
         live = {int(w[1:]) for ws in p["table"].values() for w in ws if w.startswith("c") and w[1:].isdigit()}
+        orphan = sorted({w for ws in p["table"].values() for w in ws if w == "c?"})
+        if orphan and not any(x.startswith("C") for x in pending):
+            # a request handler that belongs to no call the harness knows of: its call ended before a waiter was created
+            v.append(("C11/handler-left", "a request handler is still registered at a quiescent point although no call is pending (its call failed while sending)", at - 1))
+            break
         stale = [cid for cid in live if cid in done_at and done_at[cid] < at]
         if stale:
             v.append(("C11/handler-left", f"handler of finished call(s) {stale} still registered at a quiescent point", at - 1))
@@ -439,6 +445,7 @@ def pred_c09(tr, story):
         if label.startswith("call:"):
             tmo = int(label.split(":")[5])
             new = {w for ws in p["table"].values() for w in ws if w.startswith("c")} - ({w for ws in pj["table"].values() for w in ws if w.startswith("c")} if pj else set())
+            new = {w for w in new if w[1:].isdigit()}
             if new:
                 started["C" + sorted(new)[0][1:]] = (i, now, tmo)
         if label.startswith("cancel:"):
@@ -461,6 +468,8 @@ def pred_c09(tr, story):
                 continue
             s_i, t0, bound = started[tid]
             ended[tid] = i
+            if now - t0 > bound and tid not in cancelled:
+                v.append(("C09/bound", f"task {tid} ended {now - t0} units after it started (bound {bound}, 1/1024 s)", i))
             if res == "ok":
                 continue
             if res == "C":
@@ -551,6 +560,11 @@ def window_stories():
             story(connect_prefix() + [("hop", hops, ("data", hello_frames())), ("hop", hops, cause)])
             story([("start",), ("drain",), ("resolved", None, 1), ("drain",), ("hop", hops, ("tcp", None)), ("hop", hops, cause), ("drain",),
                    ("finish", 0), ("drain",), ("data", hello_frames())])
+        # a close in each loop turn between finish_connection() being called and its first await ending
+        # (create_connection completing, connection_made, the helper becoming ready)
+        for hops in (0, 1, 2, 3, 4):
+            story([("start",), ("drain",), ("resolved", None, 1), ("drain",), ("tcp", None), ("drain",), ("finish", 0), ("hop", hops, cause),
+                   ("drain",), ("data", hello_frames()), ("drain",), ("send", [33])])
         story(connect_prefix() + [cause, ("data", hello_frames())])
         story([("start",), ("drain",), cause, ("drain",), ("resolved", None, 1), ("drain",), ("tcp", None)])
         # steady state: cause with trailing frames, twice, with a call pending
